@@ -321,4 +321,1125 @@ theorem defmacro_marks_copy {F : Nat} {st s2 : State} {env d : Nat} {name : Stri
   rw [tick_eq_addTicks] at hf
   simp only [List.getD_cons_succ, List.getD_cons_zero, hf]
 
+/-! ### the builtins of the generated code -/
+
+theorem call_cons (v a : Val) : Core.call "cons" [v, a] =
+    some (match seqOf? a with
+      | some xs => .ok (.list (v :: xs) none)
+      | none => .goerr "GetSlice called on non-sequence") := by
+  rfl
+
+theorem call_concat (v a : Val) : Core.call "concat" [v, a] =
+    some (if (seqOf? v).isSome && ((seqOf? a).isSome && true) then
+        .ok (.list ((seqOf? v).getD [] ++ ((seqOf? a).getD [] ++ [])) none)
+      else .goerr "GetSlice called on non-sequence") := by
+  rfl
+
+theorem call_vec_list (xs : List Val) (p : Option Pos) :
+    Core.call "vec" [.list xs p] = some (.ok (.vec xs none)) := by
+  rfl
+
+/-- a builtin of the pure vocabulary: `callBuiltin` is `Core.call` and the state does not move -/
+def pureCall (st : State) (name : String) (args : List Val) : R :=
+  match Core.call name args with
+  | some (.ok v) => (.ok v, st)
+  | some (.thrown v) => (.err (.lisp v none), st)
+  | some (.goerr m) => (.err (.lisp (.goerr m) none), st)
+  | none => (.err (.lisp (.goerr ("unmodelled builtin " ++ name)) none), st)
+
+theorem callBuiltin_cons {F : Nat} {st : State} {args : List Val} {d : Nat} :
+    callBuiltin (F+1) st "cons" args d = pureCall st "cons" args := by
+  unfold callBuiltin; simp (maxSteps := 1000000) only [String.reduceEq, ↓reduceIte]; rfl
+theorem callBuiltin_concat {F : Nat} {st : State} {args : List Val} {d : Nat} :
+    callBuiltin (F+1) st "concat" args d = pureCall st "concat" args := by
+  unfold callBuiltin; simp (maxSteps := 1000000) only [String.reduceEq, ↓reduceIte]; rfl
+theorem callBuiltin_vec {F : Nat} {st : State} {args : List Val} {d : Nat} :
+    callBuiltin (F+1) st "vec" args d = pureCall st "vec" args := by
+  unfold callBuiltin; simp (maxSteps := 1000000) only [String.reduceEq, ↓reduceIte]; rfl
+
+theorem eval_std {F : Nat} {st : State} {env d : Nat} {ast : Val} (h : st.stepper = none) :
+    eval (F+1) st env ast d = evalLoop F st env ast d := by
+  rw [eval.eq_2]; simp only [h]
+
+theorem eval_sym {F : Nat} {st : State} {env d : Nat} {s : String} {p : Option Pos} {v : Val}
+    (hs : Std st) (hg : st.get env s = some v) :
+    eval (F+3) st env (.sym s p) d = (.ok v, tick st) := by
+  rw [eval_std hs.1, evalLoop_nonlist (poll_std hs.2) (by intro _ _ h; cases h), evalAst.eq_2]
+  simp only [tick_get, hg]
+
+/-! ### one step of the generated code -/
+
+theorem evalLoop_builtin2 {F : Nat} {st : State} {env d : Nat} {s nm : String} {x y : Val}
+    (hs : Std st) (hg : st.get env s = some (.builtin nm)) (hsf : s ∉ specialForms) :
+    evalLoop (F+5) st env (.list [.sym s none, x, y] none) d =
+      match eval (F+2) (addTicks 2 st) env x (d+1) with
+      | (.ok v, s1) =>
+        (match eval (F+1) s1 env y (d+1) with
+         | (.ok a, s2) =>
+           (match callBuiltin (F+4) s2 nm [v, a] d with
+            | (.ok r, s3) => (.ok r, s3)
+            | (.err e, s3) => (.err (newLispError e (.list [.sym s none, x, y] none)), s3)
+            | (.oof, s3) => (.oof, s3))
+         | (.err e, s2) => (.err e, s2)
+         | (.oof, s2) => (.oof, s2))
+      | (.err e, s1) => (.err e, s1)
+      | (.oof, s1) => (.oof, s1) := by
+  have hnm : NotMacro (tick st) env s :=
+    (NotMacro_addTicks 1).2 (NotMacro_of_get hg (by intro _ _ _ _ h; cases h))
+  rw [evalLoop_app (poll_std hs.2) (functions_unaffected hnm) hsf]
+  rw [evalList.eq_3, eval_sym (Std.tick hs) (by rw [tick_get]; exact hg)]
+  simp only [evalList.eq_3, evalList.eq_2]
+  have : tick (tick st) = addTicks 2 st := rfl
+  rw [this]
+  rcases eval (F+2) (addTicks 2 st) env x (d+1) with ⟨r1, s1⟩
+  cases r1 with
+  | ok v =>
+    simp only
+    rcases eval (F+1) s1 env y (d+1) with ⟨r2, s2⟩
+    cases r2 <;> rfl
+  | err e => rfl
+  | oof => rfl
+
+theorem evalLoop_builtin1 {F : Nat} {st : State} {env d : Nat} {s nm : String} {x : Val}
+    (hs : Std st) (hg : st.get env s = some (.builtin nm)) (hsf : s ∉ specialForms) :
+    evalLoop (F+5) st env (.list [.sym s none, x] none) d =
+      match eval (F+2) (addTicks 2 st) env x (d+1) with
+      | (.ok a, s2) =>
+        (match callBuiltin (F+4) s2 nm [a] d with
+         | (.ok r, s3) => (.ok r, s3)
+         | (.err e, s3) => (.err (newLispError e (.list [.sym s none, x] none)), s3)
+         | (.oof, s3) => (.oof, s3))
+      | (.err e, s1) => (.err e, s1)
+      | (.oof, s1) => (.oof, s1) := by
+  have hnm : NotMacro (tick st) env s :=
+    (NotMacro_addTicks 1).2 (NotMacro_of_get hg (by intro _ _ _ _ h; cases h))
+  rw [evalLoop_app (poll_std hs.2) (functions_unaffected hnm) hsf]
+  rw [evalList.eq_3, eval_sym (Std.tick hs) (by rw [tick_get]; exact hg)]
+  simp only [evalList.eq_3, evalList.eq_2]
+  have : tick (tick st) = addTicks 2 st := rfl
+  rw [this]
+  rcases eval (F+2) (addTicks 2 st) env x (d+1) with ⟨r1, s1⟩
+  cases r1 <;> rfl
+
+theorem cons_form {F : Nat} {st : State} {env d : Nat} {q acc : Val}
+    (hs : Std st) (hb : CoreBound st env) :
+    evalLoop (F+5) st env (.list [.sym "cons" none, q, acc] none) d =
+      match eval (F+2) (addTicks 2 st) env q (d+1) with
+      | (.ok v, s1) =>
+        (match eval (F+1) s1 env acc (d+1) with
+         | (.ok a, s2) =>
+           (match seqOf? a with
+            | some xs => (.ok (.list (v :: xs) none), s2)
+            | none => (.err spliceErr, s2))
+         | (.err e, s2) => (.err e, s2)
+         | (.oof, s2) => (.oof, s2))
+      | (.err e, s1) => (.err e, s1)
+      | (.oof, s1) => (.oof, s1) := by
+  rw [evalLoop_builtin2 hs hb.1 (by decide)]
+  rcases eval (F+2) (addTicks 2 st) env q (d+1) with ⟨r1, s1⟩
+  cases r1 with
+  | ok v =>
+    simp only
+    rcases eval (F+1) s1 env acc (d+1) with ⟨r2, s2⟩
+    cases r2 with
+    | ok a =>
+      simp only [callBuiltin_cons, pureCall, call_cons]
+      cases seqOf? a <;> rfl
+    | err e => rfl
+    | oof => rfl
+  | err e => rfl
+  | oof => rfl
+
+theorem concat_form {F : Nat} {st : State} {env d : Nat} {x acc : Val}
+    (hs : Std st) (hb : CoreBound st env) :
+    evalLoop (F+5) st env (.list [.sym "concat" none, x, acc] none) d =
+      match eval (F+2) (addTicks 2 st) env x (d+1) with
+      | (.ok v, s1) =>
+        (match eval (F+1) s1 env acc (d+1) with
+         | (.ok a, s2) =>
+           (match seqOf? v, seqOf? a with
+            | some ys, some xs => (.ok (.list (ys ++ xs) none), s2)
+            | _, _ => (.err spliceErr, s2))
+         | (.err e, s2) => (.err e, s2)
+         | (.oof, s2) => (.oof, s2))
+      | (.err e, s1) => (.err e, s1)
+      | (.oof, s1) => (.oof, s1) := by
+  rw [evalLoop_builtin2 hs hb.2.1 (by decide)]
+  rcases eval (F+2) (addTicks 2 st) env x (d+1) with ⟨r1, s1⟩
+  cases r1 with
+  | ok v =>
+    simp only
+    rcases eval (F+1) s1 env acc (d+1) with ⟨r2, s2⟩
+    cases r2 with
+    | ok a =>
+      simp only [callBuiltin_concat, pureCall, call_concat]
+      cases seqOf? v <;> cases seqOf? a <;> simp [spliceErr, newLispError, getPosition]
+    | err e => rfl
+    | oof => rfl
+  | err e => rfl
+  | oof => rfl
+
+theorem vec_form {F : Nat} {st : State} {env d : Nat} {x : Val}
+    (hs : Std st) (hb : CoreBound st env) :
+    evalLoop (F+5) st env (.list [.sym "vec" none, x] none) d =
+      match eval (F+2) (addTicks 2 st) env x (d+1) with
+      | (.ok a, s2) =>
+          (match pureCall s2 "vec" [a] with
+           | (.ok r, s3) => (.ok r, s3)
+           | (.err e, s3) => (.err (newLispError e (.list [.sym "vec" none, x] none)), s3)
+           | (.oof, s3) => (.oof, s3))
+      | (.err e, s1) => (.err e, s1)
+      | (.oof, s1) => (.oof, s1) := by
+  rw [evalLoop_builtin1 hs hb.2.2.1 (by decide)]
+  simp only [callBuiltin_vec]
+
+theorem quote_form {F : Nat} {st : State} {env d : Nat} {v : Val}
+    (hs : Std st) (hq : NotMacro st env "quote") :
+    evalLoop (F+2) st env (.list [.sym "quote" none, v] none) d = (.ok v, tick st) := by
+  rw [evalLoop_quote (poll_std hs.2) (functions_unaffected ((NotMacro_addTicks 1).2 hq))]
+  rfl
+
+theorem empty_form {F : Nat} {st : State} {env d : Nat} (hs : Std st) :
+    evalLoop (F+2) st env (.list [] none) d = (.ok (.list [] none), tick st) := by
+  rw [evalLoop_mac_empty (poll_std hs.2) (macroexpand_not_macro _)]
+  rintro ⟨s, p, args, q, ps, b, e, fp, heq, _⟩
+  cases heq
+
+/-- values that `quasiquote` leaves alone evaluate to themselves -/
+theorem literal_form {F : Nat} {st : State} {env d : Nat} {v : Val} (hs : Std st)
+    (h1 : ∀ xs p, v ≠ .list xs p) (h2 : ∀ xs p, v ≠ .vec xs p) (h3 : ∀ m, v ≠ .map m)
+    (h4 : ∀ s p, v ≠ .sym s p) :
+    evalLoop (F+2) st env v d = (.ok v, tick st) := by
+  rw [evalLoop_nonlist (poll_std hs.2) h1]
+  cases v <;> first | (unfold evalAst; rfl) | exact absurd rfl (h1 _ _) | exact absurd rfl (h2 _ _) | exact absurd rfl (h3 _) | exact absurd rfl (h4 _ _)
+
+/-! ### "for all large enough fuel, up to polls" -/
+
+/-- evaluating `code` from `st` (or from `st` after any number of extra polls) ends, for all large
+    enough fuel, with result `r` in state `st'` up to extra polls -/
+def Reaches (st : State) (env : Nat) (code : Val) (d : Nat) (r : Res Val) (st' : State) : Prop :=
+  ∃ F₀, ∀ F, F₀ ≤ F → ∀ j, ∃ k, evalLoop F (addTicks j st) env code d = (r, addTicks k st')
+
+theorem exists_add_of_le {a F : Nat} (h : a ≤ F) : ∃ n, F = n + a := ⟨F - a, by omega⟩
+
+theorem reaches_vec_ok {st se : State} {env d : Nat} {L : Val} {vs : List Val}
+    (hs : Std st) (hb : CoreBound st env) (h : Reaches st env L (d+1) (.ok (.list vs none)) se) :
+    Reaches st env (.list [.sym "vec" none, L] none) d (.ok (.vec vs none)) se := by
+  obtain ⟨F1, h1⟩ := h
+  refine ⟨F1 + 5, fun F hF j => ?_⟩
+  obtain ⟨n, rfl⟩ := exists_add_of_le (Nat.le_trans (Nat.le_add_left 5 F1) hF)
+  rw [vec_form (Std.addTicks hs j) ((CoreBound_addTicks j).2 hb), addTicks_addTicks,
+    eval_std (Std.addTicks hs _).1]
+  obtain ⟨k, e1⟩ := h1 (n+1) (by omega) (j+2)
+  rw [e1]
+  exact ⟨k, rfl⟩
+
+theorem reaches_vec_err {st se : State} {env d : Nat} {L : Val} {e : Err}
+    (hs : Std st) (hb : CoreBound st env) (h : Reaches st env L (d+1) (.err e) se) :
+    Reaches st env (.list [.sym "vec" none, L] none) d (.err e) se := by
+  obtain ⟨F1, h1⟩ := h
+  refine ⟨F1 + 5, fun F hF j => ?_⟩
+  obtain ⟨n, rfl⟩ := exists_add_of_le (Nat.le_trans (Nat.le_add_left 5 F1) hF)
+  rw [vec_form (Std.addTicks hs j) ((CoreBound_addTicks j).2 hb), addTicks_addTicks,
+    eval_std (Std.addTicks hs _).1]
+  obtain ⟨k, e1⟩ := h1 (n+1) (by omega) (j+2)
+  rw [e1]
+  exact ⟨k, rfl⟩
+
+section comb
+variable {st s1 s2 : State} {env d : Nat} {q acc : Val} {v : Val} {vs ys : List Val} {e : Err} {hd : String}
+
+/-- shared script: unfold a two-operand form at fuel `n+5` from `addTicks j st` -/
+local macro "form2_tac" form:term "," hs:ident "," hb:ident "," j:ident : tactic => `(tactic|
+  rw [$form:term (Std.addTicks $hs $j) ((CoreBound_addTicks $j).2 $hb), addTicks_addTicks,
+    eval_std (Std.addTicks $hs _).1])
+
+theorem reaches_cons_err1 (hs : Std st) (hb : CoreBound st env)
+    (h : Reaches st env q (d+1) (.err e) s1) :
+    Reaches st env (.list [.sym "cons" none, q, acc] none) d (.err e) s1 := by
+  obtain ⟨F1, h1⟩ := h
+  refine ⟨F1 + 5, fun F hF j => ?_⟩
+  obtain ⟨n, rfl⟩ := exists_add_of_le (Nat.le_trans (Nat.le_add_left 5 F1) hF)
+  form2_tac cons_form, hs, hb, j
+  obtain ⟨k, e1⟩ := h1 (n+1) (by omega) (j+2)
+  rw [e1]; exact ⟨k, rfl⟩
+
+theorem reaches_concat_err1 (hs : Std st) (hb : CoreBound st env)
+    (h : Reaches st env q (d+1) (.err e) s1) :
+    Reaches st env (.list [.sym "concat" none, q, acc] none) d (.err e) s1 := by
+  obtain ⟨F1, h1⟩ := h
+  refine ⟨F1 + 5, fun F hF j => ?_⟩
+  obtain ⟨n, rfl⟩ := exists_add_of_le (Nat.le_trans (Nat.le_add_left 5 F1) hF)
+  form2_tac concat_form, hs, hb, j
+  obtain ⟨k, e1⟩ := h1 (n+1) (by omega) (j+2)
+  rw [e1]; exact ⟨k, rfl⟩
+
+theorem reaches_cons_err2 (hs : Std st) (hb : CoreBound st env)
+    (h : Reaches st env q (d+1) (.ok v) s1) (hs1 : Std s1)
+    (h' : Reaches s1 env acc (d+1) (.err e) s2) :
+    Reaches st env (.list [.sym "cons" none, q, acc] none) d (.err e) s2 := by
+  obtain ⟨F1, h1⟩ := h
+  obtain ⟨F2, h2⟩ := h'
+  refine ⟨F1 + F2 + 5, fun F hF j => ?_⟩
+  obtain ⟨n, rfl⟩ := exists_add_of_le (Nat.le_trans (Nat.le_add_left 5 (F1 + F2)) hF)
+  form2_tac cons_form, hs, hb, j
+  obtain ⟨k, e1⟩ := h1 (n+1) (by omega) (j+2)
+  rw [e1]; simp only
+  rw [eval_std (Std.addTicks hs1 _).1]
+  obtain ⟨k2, e2⟩ := h2 n (by omega) k
+  rw [e2]; exact ⟨k2, rfl⟩
+
+theorem reaches_concat_err2 (hs : Std st) (hb : CoreBound st env)
+    (h : Reaches st env q (d+1) (.ok v) s1) (hs1 : Std s1)
+    (h' : Reaches s1 env acc (d+1) (.err e) s2) :
+    Reaches st env (.list [.sym "concat" none, q, acc] none) d (.err e) s2 := by
+  obtain ⟨F1, h1⟩ := h
+  obtain ⟨F2, h2⟩ := h'
+  refine ⟨F1 + F2 + 5, fun F hF j => ?_⟩
+  obtain ⟨n, rfl⟩ := exists_add_of_le (Nat.le_trans (Nat.le_add_left 5 (F1 + F2)) hF)
+  form2_tac concat_form, hs, hb, j
+  obtain ⟨k, e1⟩ := h1 (n+1) (by omega) (j+2)
+  rw [e1]; simp only
+  rw [eval_std (Std.addTicks hs1 _).1]
+  obtain ⟨k2, e2⟩ := h2 n (by omega) k
+  rw [e2]; exact ⟨k2, rfl⟩
+
+theorem reaches_cons_ok (hs : Std st) (hb : CoreBound st env)
+    (h : Reaches st env q (d+1) (.ok v) s1) (hs1 : Std s1)
+    (h' : Reaches s1 env acc (d+1) (.ok (.list vs none)) s2) :
+    Reaches st env (.list [.sym "cons" none, q, acc] none) d (.ok (.list (v :: vs) none)) s2 := by
+  obtain ⟨F1, h1⟩ := h
+  obtain ⟨F2, h2⟩ := h'
+  refine ⟨F1 + F2 + 5, fun F hF j => ?_⟩
+  obtain ⟨n, rfl⟩ := exists_add_of_le (Nat.le_trans (Nat.le_add_left 5 (F1 + F2)) hF)
+  form2_tac cons_form, hs, hb, j
+  obtain ⟨k, e1⟩ := h1 (n+1) (by omega) (j+2)
+  rw [e1]; simp only
+  rw [eval_std (Std.addTicks hs1 _).1]
+  obtain ⟨k2, e2⟩ := h2 n (by omega) k
+  rw [e2]; exact ⟨k2, rfl⟩
+
+theorem reaches_concat_ok (hs : Std st) (hb : CoreBound st env)
+    (h : Reaches st env q (d+1) (.ok v) s1) (hs1 : Std s1)
+    (h' : Reaches s1 env acc (d+1) (.ok (.list vs none)) s2) :
+    Reaches st env (.list [.sym "concat" none, q, acc] none) d
+      (match seqOf? v with | some ys => .ok (.list (ys ++ vs) none) | none => .err spliceErr) s2 := by
+  obtain ⟨F1, h1⟩ := h
+  obtain ⟨F2, h2⟩ := h'
+  refine ⟨F1 + F2 + 5, fun F hF j => ?_⟩
+  obtain ⟨n, rfl⟩ := exists_add_of_le (Nat.le_trans (Nat.le_add_left 5 (F1 + F2)) hF)
+  form2_tac concat_form, hs, hb, j
+  obtain ⟨k, e1⟩ := h1 (n+1) (by omega) (j+2)
+  rw [e1]; simp only
+  rw [eval_std (Std.addTicks hs1 _).1]
+  obtain ⟨k2, e2⟩ := h2 n (by omega) k
+  rw [e2]
+  refine ⟨k2, ?_⟩
+  cases seqOf? v <;> rfl
+
+end comb
+
+theorem reaches_quote {st : State} {env d : Nat} {v : Val} (hs : Std st) (hq : NotMacro st env "quote") :
+    Reaches st env (.list [.sym "quote" none, v] none) d (.ok v) st := by
+  refine ⟨2, fun F hF j => ?_⟩
+  obtain ⟨n, rfl⟩ := exists_add_of_le hF
+  rw [quote_form (Std.addTicks hs j) ((NotMacro_addTicks j).2 hq)]
+  exact ⟨j + 1, rfl⟩
+
+theorem reaches_empty {st : State} {env d : Nat} (hs : Std st) :
+    Reaches st env (.list [] none) d (.ok (.list [] none)) st := by
+  refine ⟨2, fun F hF j => ?_⟩
+  obtain ⟨n, rfl⟩ := exists_add_of_le hF
+  rw [empty_form (Std.addTicks hs j)]
+  exact ⟨j + 1, rfl⟩
+
+theorem reaches_literal {st : State} {env d : Nat} {v : Val} (hs : Std st)
+    (h1 : ∀ xs p, v ≠ .list xs p) (h2 : ∀ xs p, v ≠ .vec xs p) (h3 : ∀ m, v ≠ .map m)
+    (h4 : ∀ s p, v ≠ .sym s p) : Reaches st env v d (.ok v) st := by
+  refine ⟨2, fun F hF j => ?_⟩
+  obtain ⟨n, rfl⟩ := exists_add_of_le hF
+  rw [literal_form (Std.addTicks hs j) h1 h2 h3 h4]
+  exact ⟨j + 1, rfl⟩
+
+/-! ### what the main theorem needs to know about `eval` of the user's expressions -/
+
+/-- the general fact about `eval` of arbitrary code (proved in Proofs/QQEval.lean by induction over
+    the whole mutual block): under the standard side conditions a result other than out-of-fuel is
+    stable under more fuel, does not observe the poll counter, and leaves the side conditions intact -/
+structure EvalFacts : Prop where
+  run : ∀ {F : Nat} {st : State} {env : Nat} {e : Val} {d : Nat} {r : Res Val} {st' : State},
+    Std st → eval F st env e d = (r, st') → r ≠ .oof →
+    Std st' ∧ ∀ F', F ≤ F' → ∀ j, eval F' (addTicks j st) env e d = (r, addTicks j st')
+  /-- extra polls before = the same extra polls after, whatever the outcome (out-of-fuel included) -/
+  shift : ∀ {F : Nat} {st : State} {env : Nat} {e : Val} {d : Nat} (j : Nat), Std st →
+    eval F (addTicks j st) env e d = ((eval F st env e d).1, addTicks j (eval F st env e d).2)
+
+theorem EvalFacts.std' (ef : EvalFacts) {F : Nat} {st st' : State} {env d : Nat} {e : Val} {r : Res Val}
+    (hs : Std st) (h : eval F st env e d = (r, st')) (hr : r ≠ .oof) : Std st' :=
+  (ef.run hs h hr).1
+
+theorem reaches_of_eval (ef : EvalFacts) {F : Nat} {st st' : State} {env d : Nat} {e : Val} {r : Res Val}
+    (hs : Std st) (h : eval F st env e d = (r, st')) (hr : r ≠ .oof) : Reaches st env e d r st' := by
+  refine ⟨F, fun F' hF j => ⟨j, ?_⟩⟩
+  rw [← eval_std (Std.addTicks hs j).1]
+  exact (ef.run hs h hr).2 (F'+1) (Nat.le_succ_of_le hF) j
+
+/-! ### the main theorem -/
+
+theorem qq_literal_case {env : Nat} {I : State → Prop} {v : Val} {F : Nat} {st st' : State} {d : Nat}
+    {r : Res Val}
+    (h1 : ∀ xs p, v ≠ .list xs p) (h2 : ∀ xs p, v ≠ .vec xs p) (h3 : ∀ m, v ≠ .map m)
+    (h4 : ∀ s p, v ≠ .sym s p) (hi : I st) (hs : Std st) (h : qqSubst F env st v d = (r, st')) :
+    I st' ∧ Std st' ∧ Reaches st env (quasiquote v) d r st' := by
+  rw [qqSubst.eq_3 _ _ _ _ _ (fun xs p h => h2 xs p h) (fun xs p h => h1 xs p h)] at h
+  cases h
+  refine ⟨hi, hs, ?_⟩
+  have : quasiquote v = v := by
+    cases v <;> first | rfl | exact absurd rfl (h1 _ _) | exact absurd rfl (h2 _ _) | exact absurd rfl (h3 _) | exact absurd rfl (h4 _ _)
+  rw [this]
+  exact reaches_literal hs h1 h2 h3 h4
+
+mutual
+theorem qq_main (ef : EvalFacts) (env : Nat) (I : State → Prop) (hI : ∀ st, I st → CoreBound st env) :
+    ∀ (t : Val) (F : Nat) (st : State) (d : Nat) (r : Res Val) (st' : State),
+    (∀ e ∈ qqExprs t, Preserves I env e) → I st → Std st →
+    qqSubst F env st t d = (r, st') → r ≠ .oof →
+    I st' ∧ Std st' ∧ Reaches st env (quasiquote t) d r st'
+  | .vec xs p, F, st, d, r, st', hp, hi, hs, h, hr => by
+    rw [qqSubst.eq_1] at h
+    rcases he : qqElems F env st xs (d+1) with ⟨re, se⟩
+    rw [he] at h
+    have hp' : ∀ e ∈ qqExprsL xs, Preserves I env e := by
+      intro e he; exact hp e (by rw [qqExprs.eq_1]; exact he)
+    rw [quasiquote.eq_1]
+    cases re with
+    | oof => cases h; exact absurd rfl hr
+    | ok vs =>
+      cases h
+      obtain ⟨hi', hs', hR⟩ := qq_elems ef env I hI xs F st (d+1) _ _ hp' hi hs he (by intro h; cases h)
+      exact ⟨hi', hs', reaches_vec_ok hs (hI _ hi) hR⟩
+    | err e =>
+      cases h
+      obtain ⟨hi', hs', hR⟩ := qq_elems ef env I hI xs F st (d+1) _ _ hp' hi hs he (by intro h; cases h)
+      exact ⟨hi', hs', reaches_vec_err hs (hI _ hi) hR⟩
+  | .list xs p, F, st, d, r, st', hp, hi, hs, h, hr => by
+    rw [qqSubst.eq_2] at h
+    rw [quasiquote_list]
+    rw [qqExprs.eq_2] at hp
+    cases hu : unquoteArg? (.list xs p) with
+    | some e =>
+      rw [hu] at h hp
+      simp only at h ⊢
+      exact ⟨hp e (List.mem_singleton.2 rfl) _ _ _ _ _ hi h, ef.std' hs h hr, reaches_of_eval ef hs h hr⟩
+    | none =>
+      rw [hu] at h hp
+      simp only at h hp ⊢
+      rcases he : qqElems F env st xs d with ⟨re, se⟩
+      rw [he] at h
+      cases re with
+      | oof => cases h; exact absurd rfl hr
+      | ok vs =>
+        cases h
+        exact qq_elems ef env I hI xs F st d _ _ hp hi hs he (by intro h; cases h)
+      | err e =>
+        cases h
+        exact qq_elems ef env I hI xs F st d _ _ hp hi hs he (by intro h; cases h)
+  | .map m, F, st, d, r, st', hp, hi, hs, h, hr => by
+    rw [qqSubst.eq_3 _ _ _ _ _ (by intro _ _ h; cases h) (by intro _ _ h; cases h)] at h
+    cases h
+    rw [quasiquote.eq_2]
+    exact ⟨hi, hs, reaches_quote hs (hI _ hi).2.2.2⟩
+  | .sym s p, F, st, d, r, st', hp, hi, hs, h, hr => by
+    rw [qqSubst.eq_3 _ _ _ _ _ (by intro _ _ h; cases h) (by intro _ _ h; cases h)] at h
+    cases h
+    rw [quasiquote.eq_3]
+    exact ⟨hi, hs, reaches_quote hs (hI _ hi).2.2.2⟩
+  | .nil, F, st, d, r, st', hp, hi, hs, h, hr =>
+    qq_literal_case (by intro _ _ h; cases h) (by intro _ _ h; cases h) (by intro _ h; cases h) (by intro _ _ h; cases h) hi hs h
+  | .bool _, F, st, d, r, st', hp, hi, hs, h, hr =>
+    qq_literal_case (by intro _ _ h; cases h) (by intro _ _ h; cases h) (by intro _ h; cases h) (by intro _ _ h; cases h) hi hs h
+  | .int _, F, st, d, r, st', hp, hi, hs, h, hr =>
+    qq_literal_case (by intro _ _ h; cases h) (by intro _ _ h; cases h) (by intro _ h; cases h) (by intro _ _ h; cases h) hi hs h
+  | .str _, F, st, d, r, st', hp, hi, hs, h, hr =>
+    qq_literal_case (by intro _ _ h; cases h) (by intro _ _ h; cases h) (by intro _ h; cases h) (by intro _ _ h; cases h) hi hs h
+  | .set _, F, st, d, r, st', hp, hi, hs, h, hr =>
+    qq_literal_case (by intro _ _ h; cases h) (by intro _ _ h; cases h) (by intro _ h; cases h) (by intro _ _ h; cases h) hi hs h
+  | .fn .., F, st, d, r, st', hp, hi, hs, h, hr =>
+    qq_literal_case (by intro _ _ h; cases h) (by intro _ _ h; cases h) (by intro _ h; cases h) (by intro _ _ h; cases h) hi hs h
+  | .builtin _, F, st, d, r, st', hp, hi, hs, h, hr =>
+    qq_literal_case (by intro _ _ h; cases h) (by intro _ _ h; cases h) (by intro _ h; cases h) (by intro _ _ h; cases h) hi hs h
+  | .atom _, F, st, d, r, st', hp, hi, hs, h, hr =>
+    qq_literal_case (by intro _ _ h; cases h) (by intro _ _ h; cases h) (by intro _ h; cases h) (by intro _ _ h; cases h) hi hs h
+  | .future _, F, st, d, r, st', hp, hi, hs, h, hr =>
+    qq_literal_case (by intro _ _ h; cases h) (by intro _ _ h; cases h) (by intro _ h; cases h) (by intro _ _ h; cases h) hi hs h
+  | .goerr _, F, st, d, r, st', hp, hi, hs, h, hr =>
+    qq_literal_case (by intro _ _ h; cases h) (by intro _ _ h; cases h) (by intro _ h; cases h) (by intro _ _ h; cases h) hi hs h
+  | .opaque _, F, st, d, r, st', hp, hi, hs, h, hr =>
+    qq_literal_case (by intro _ _ h; cases h) (by intro _ _ h; cases h) (by intro _ h; cases h) (by intro _ _ h; cases h) hi hs h
+theorem qq_elems (ef : EvalFacts) (env : Nat) (I : State → Prop) (hI : ∀ st, I st → CoreBound st env) :
+    ∀ (xs : List Val) (F : Nat) (st : State) (d : Nat) (r : Res (List Val)) (st' : State),
+    (∀ e ∈ qqExprsL xs, Preserves I env e) → I st → Std st →
+    qqElems F env st xs d = (r, st') → r ≠ .oof →
+    I st' ∧ Std st' ∧ Reaches st env (qqLoop xs) d (listRes r) st'
+  | [], F, st, d, r, st', hp, hi, hs, h, hr => by
+    rw [qqElems.eq_1] at h
+    cases h
+    rw [qqLoop.eq_1]
+    exact ⟨hi, hs, reaches_empty hs⟩
+  | elt :: rest, F, st, d, r, st', hp, hi, hs, h, hr => by
+    rw [qqElems.eq_2] at h
+    rw [qqLoop_cons]
+    rw [qqExprsL.eq_2] at hp
+    have hpr : ∀ e ∈ qqExprsL rest, Preserves I env e := fun e he => hp e (List.mem_append_right _ he)
+    cases hsp : spliceArg? elt with
+    | some x =>
+      rw [hsp] at h hp
+      simp only at h hp ⊢
+      have hpx : Preserves I env x := hp x (List.mem_append_left _ (List.mem_singleton.2 rfl))
+      rcases h1 : eval F st env x (d+1) with ⟨r1, s1⟩
+      rw [h1] at h
+      cases r1 with
+      | oof => cases h; exact absurd rfl hr
+      | err e =>
+        cases h
+        exact ⟨hpx _ _ _ _ _ hi h1, ef.std' hs h1 (by intro h; cases h),
+          reaches_concat_err1 hs (hI _ hi) (reaches_of_eval ef hs h1 (by intro h; cases h))⟩
+      | ok v =>
+        simp only at h
+        have hi1 := hpx _ _ _ _ _ hi h1
+        have hs1 := ef.std' hs h1 (by intro h; cases h)
+        have hR1 := reaches_of_eval ef hs h1 (by intro h; cases h)
+        rcases h2 : qqElems F env s1 rest (d+1) with ⟨r2, s2⟩
+        rw [h2] at h
+        cases r2 with
+        | oof => cases h; exact absurd rfl hr
+        | err e =>
+          cases h
+          obtain ⟨hi2, hs2, hR2⟩ :=
+            qq_elems ef env I hI rest F s1 (d+1) _ _ hpr hi1 hs1 h2 (by intro h; cases h)
+          exact ⟨hi2, hs2, reaches_concat_err2 hs (hI _ hi) hR1 hs1 hR2⟩
+        | ok vs =>
+          simp only at h
+          obtain ⟨hi2, hs2, hR2⟩ :=
+            qq_elems ef env I hI rest F s1 (d+1) _ _ hpr hi1 hs1 h2 (by intro h; cases h)
+          have hR := reaches_concat_ok hs (hI _ hi) hR1 hs1 hR2
+          cases hv : seqOf? v with
+          | none => rw [hv] at h hR; cases h; exact ⟨hi2, hs2, hR⟩
+          | some ys => rw [hv] at h hR; cases h; exact ⟨hi2, hs2, hR⟩
+    | none =>
+      rw [hsp] at h hp
+      simp only at h hp ⊢
+      have hpx : ∀ e ∈ qqExprs elt, Preserves I env e := fun e he => hp e (List.mem_append_left _ he)
+      rcases h1 : qqSubst F env st elt (d+1) with ⟨r1, s1⟩
+      rw [h1] at h
+      cases r1 with
+      | oof => cases h; exact absurd rfl hr
+      | err e =>
+        cases h
+        obtain ⟨hi1, hs1, hR1⟩ := qq_main ef env I hI elt F st (d+1) _ _ hpx hi hs h1 (by intro h; cases h)
+        exact ⟨hi1, hs1, reaches_cons_err1 hs (hI _ hi) hR1⟩
+      | ok v =>
+        simp only at h
+        obtain ⟨hi1, hs1, hR1⟩ := qq_main ef env I hI elt F st (d+1) _ _ hpx hi hs h1 (by intro h; cases h)
+        rcases h2 : qqElems F env s1 rest (d+1) with ⟨r2, s2⟩
+        rw [h2] at h
+        cases r2 with
+        | oof => cases h; exact absurd rfl hr
+        | err e =>
+          cases h
+          obtain ⟨hi2, hs2, hR2⟩ :=
+            qq_elems ef env I hI rest F s1 (d+1) _ _ hpr hi1 hs1 h2 (by intro h; cases h)
+          exact ⟨hi2, hs2, reaches_cons_err2 hs (hI _ hi) hR1 hs1 hR2⟩
+        | ok vs =>
+          cases h
+          obtain ⟨hi2, hs2, hR2⟩ :=
+            qq_elems ef env I hI rest F s1 (d+1) _ _ hpr hi1 hs1 h2 (by intro h; cases h)
+          exact ⟨hi2, hs2, reaches_cons_ok hs (hI _ hi) hR1 hs1 hR2⟩
+end
+
+/-! ### simple facts about the specification -/
+
+theorem qq_effect_order (F env : Nat) : ∀ (es : List Val) (st : State) (d : Nat),
+    qqElems F env st (es.map unq) d = seqEval F env st es d
+  | [], st, d => by rw [List.map_nil, qqElems.eq_1, seqEval.eq_1]
+  | e :: rest, st, d => by
+    have h1 : spliceArg? (unq e) = none := rfl
+    have h2 : qqSubst F env st (unq e) (d+1) = eval F st env e (d+1) := by
+      unfold unq; rw [qqSubst.eq_2]; rfl
+    rw [List.map_cons, qqElems.eq_2, seqEval.eq_2, h1]
+    simp only [h2]
+    rcases eval F st env e (d+1) with ⟨r1, s1⟩
+    cases r1 with
+    | ok v => simp only [qq_effect_order F env rest s1 (d+1)]
+    | err e => rfl
+    | oof => rfl
+
+mutual
+theorem qq_literal (F env : Nat) : ∀ (t : Val) (st : State) (d : Nat), qqExprs t = [] →
+    qqSubst F env st t d = (.ok (dropSeqPos t), st)
+  | .vec xs p, st, d, h => by
+    rw [qqExprs.eq_1] at h
+    rw [qqSubst.eq_1, qq_literalL F env xs st (d+1) h, dropSeqPos.eq_1]
+  | .list xs p, st, d, h => by
+    rw [qqExprs.eq_2] at h
+    rw [qqSubst.eq_2]
+    cases hu : unquoteArg? (.list xs p) with
+    | some e => rw [hu] at h; cases h
+    | none =>
+      rw [hu] at h
+      simp only at h ⊢
+      rw [qq_literalL F env xs st d h, dropSeqPos.eq_2]
+  | .nil, st, d, h => rfl
+  | .bool _, st, d, h => rfl
+  | .int _, st, d, h => rfl
+  | .str _, st, d, h => rfl
+  | .sym _ _, st, d, h => rfl
+  | .map _, st, d, h => rfl
+  | .set _, st, d, h => rfl
+  | .fn .., st, d, h => rfl
+  | .builtin _, st, d, h => rfl
+  | .atom _, st, d, h => rfl
+  | .future _, st, d, h => rfl
+  | .goerr _, st, d, h => rfl
+  | .opaque _, st, d, h => rfl
+theorem qq_literalL (F env : Nat) : ∀ (xs : List Val) (st : State) (d : Nat), qqExprsL xs = [] →
+    qqElems F env st xs d = (.ok (dropSeqPosL xs), st)
+  | [], st, d, h => by rw [qqElems.eq_1, dropSeqPosL.eq_1]
+  | elt :: rest, st, d, h => by
+    rw [qqExprsL.eq_2] at h
+    obtain ⟨h1, h2⟩ := List.append_eq_nil_iff.1 h
+    rw [qqElems.eq_2]
+    cases hsp : spliceArg? elt with
+    | some e => rw [hsp] at h1; cases h1
+    | none =>
+      rw [hsp] at h1
+      simp only at h1 ⊢
+      rw [qq_literal F env elt st (d+1) h1]
+      simp only
+      rw [qq_literalL F env rest st (d+1) h2, dropSeqPosL.eq_2]
+end
+
+/-- the spec keeps vectors vectors -/
+theorem qqSubst_vec_ok {F env : Nat} {st st' : State} {xs : List Val} {p : Option Pos} {d : Nat} {v : Val}
+    (h : qqSubst F env st (.vec xs p) d = (.ok v, st')) :
+    ∃ vs, v = .vec vs none ∧ qqElems F env st xs (d+1) = (.ok vs, st') := by
+  rw [qqSubst.eq_1] at h
+  rcases he : qqElems F env st xs (d+1) with ⟨re, se⟩
+  rw [he] at h
+  cases re with
+  | ok vs => cases h; exact ⟨vs, rfl, rfl⟩
+  | err e => cases h
+  | oof => cases h
+
+/-! ### `CoreBound`: the root scope, child scopes -/
+
+theorem coreBound_init : CoreBound initState 0 := by
+  refine ⟨by rfl, by rfl, by rfl, ?_⟩
+  have : initState.get 0 "quote" = none := by rfl
+  intro ps b e p h; rw [this] at h; cases h
+
+theorem getAux_push {st : State} (hwf : StoreWF st) (x : Scope) (k : String) :
+    ∀ (n id : Nat), id < st.scopes.size →
+      State.getAux { st with scopes := st.scopes.push x } n id k = State.getAux st n id k := by
+  intro n
+  induction n with
+  | zero => intro id _; rfl
+  | succ n ih =>
+    intro id hid
+    simp only [State.getAux, State.scope?]
+    rw [Array.getElem?_push_lt hid]
+    have hsc : st.scopes[id]? = some st.scopes[id] := Array.getElem?_eq_getElem hid
+    rw [hsc]
+    simp only
+    cases alookup k st.scopes[id].data with
+    | some v => rfl
+    | none =>
+      simp only
+      cases ho : st.scopes[id].outer with
+      | none => rfl
+      | some o => exact ih o (hwf id _ hsc o ho)
+
+/-- what a name means in a fresh child scope: its own binding, else what it means in the parent -/
+theorem get_newScope {st : State} (hwf : StoreWF st) {env : Nat} (henv : env < st.scopes.size)
+    (data : List (String × Val)) (k : String) :
+    (st.newScope env data).1.get (st.newScope env data).2 k =
+      match alookup k data with
+      | some v => some v
+      | none => st.get env k := by
+  simp only [State.newScope, State.get, Array.size_push]
+  rw [State.getAux]
+  simp only [State.scope?, Array.getElem?_push_size]
+  cases alookup k data with
+  | some v => rfl
+  | none => exact getAux_push hwf _ k _ env henv
+
+/-- `CoreBound` is inherited by a child scope that does not bind the four names -/
+theorem coreBound_child {st : State} (hwf : StoreWF st) {env : Nat} (henv : env < st.scopes.size)
+    (hb : CoreBound st env) (data : List (String × Val))
+    (h1 : alookup "cons" data = none) (h2 : alookup "concat" data = none)
+    (h3 : alookup "vec" data = none) (h4 : alookup "quote" data = none) :
+    CoreBound (st.newScope env data).1 (st.newScope env data).2 := by
+  unfold CoreBound NotMacro
+  simp only [get_newScope hwf henv, h1, h2, h3, h4]
+  exact hb
+
+theorem storeWF_init : StoreWF initState := by
+  intro i sc h o ho
+  have : i = 0 := by
+    rcases Nat.eq_zero_or_pos i with h0 | h0
+    · exact h0
+    · have hsz : initState.scopes.size = 1 := rfl
+      rw [Array.getElem?_eq_none (by omega)] at h; cases h
+  subst this
+  have : initState.scopes[0]? = some ⟨builtinNames.map (fun n => (n, Val.builtin n)), none⟩ := rfl
+  rw [this] at h; cases h; cases ho
+
+theorem storeWF_newScope {st : State} (hwf : StoreWF st) {env : Nat} (henv : env < st.scopes.size)
+    (data : List (String × Val)) : StoreWF (st.newScope env data).1 := by
+  intro i sc h o ho
+  simp only [State.newScope, Array.size_push] at h ⊢
+  rcases Nat.lt_or_ge i st.scopes.size with hi | hi
+  · rw [Array.getElem?_push_lt hi] at h
+    exact Nat.lt_succ_of_lt (hwf i sc (by rw [Array.getElem?_eq_getElem hi]; exact h ▸ rfl) o ho)
+  · rcases Nat.eq_or_lt_of_le hi with he | hl
+    · subst he
+      rw [Array.getElem?_push_size] at h
+      cases h; cases ho; exact Nat.lt_succ_of_lt henv
+    · rw [Array.getElem?_eq_none (by simp only [Array.size_push]; omega)] at h; cases h
+
+/-! ### the top-level statements (relative to `EvalFacts`) -/
+
+/-- the code generated by `quasiquote t` evaluates to what the specification says -/
+theorem qq_code_eq_subst (ef : EvalFacts) {env : Nat} {I : State → Prop}
+    (hI : ∀ st, I st → CoreBound st env) {t : Val} {F : Nat} {st st' : State} {d : Nat} {r : Res Val}
+    (hp : ∀ e ∈ qqExprs t, Preserves I env e) (hi : I st) (hs : Std st)
+    (h : qqSubst F env st t d = (r, st')) (hr : r ≠ .oof) :
+    ∃ F₀, ∀ F', F₀ ≤ F' → ∃ k, evalLoop F' st env (quasiquote t) d = (r, addTicks k st') := by
+  obtain ⟨_, _, F₀, hR⟩ := qq_main ef env I hI t F st d r st' hp hi hs h hr
+  exact ⟨F₀, fun F' hF => hR F' hF 0⟩
+
+/-- the form `(quasiquote t)` evaluates to what the specification says -/
+theorem qq_form_eq_subst (ef : EvalFacts) {env : Nat} {I : State → Prop}
+    (hI : ∀ st, I st → CoreBound st env) {t : Val} {F : Nat} {st st' : State} {d : Nat} {r : Res Val}
+    {pq p : Option Pos} {rest : List Val}
+    (hq : NotMacro st env "quasiquote")
+    (hp : ∀ e ∈ qqExprs t, Preserves I env e) (hi : I st) (hs : Std st)
+    (h : qqSubst F env st t d = (r, st')) (hr : r ≠ .oof) :
+    ∃ F₀, ∀ F', F₀ ≤ F' → ∃ k,
+      evalLoop F' st env (.list (.sym "quasiquote" pq :: t :: rest) p) d = (r, addTicks k st') := by
+  obtain ⟨_, _, F₀, hR⟩ := qq_main ef env I hI t F st d r st' hp hi hs h hr
+  refine ⟨F₀ + 2, fun F' hF => ?_⟩
+  obtain ⟨n, rfl⟩ := exists_add_of_le (Nat.le_trans (Nat.le_add_left 2 F₀) hF)
+  rw [evalLoop_quasiquote (poll_std hs.2) (functions_unaffected ((NotMacro_addTicks 1).2 hq)),
+    continueWith_std (Std.tick hs).1]
+  exact hR (n+1) (by omega) 1
+
+/-! ### the specification is monotone in the fuel -/
+
+theorem EvalFacts.mono0 (ef : EvalFacts) {F F' : Nat} {st st' : State} {env d : Nat} {e : Val}
+    {r : Res Val} (hs : Std st) (h : eval F st env e d = (r, st')) (hr : r ≠ .oof) (hF : F ≤ F') :
+    eval F' st env e d = (r, st') :=
+  (ef.run hs h hr).2 F' hF 0
+
+mutual
+theorem qqSubst_mono (ef : EvalFacts) (env : Nat) :
+    ∀ (t : Val) (F : Nat) (st : State) (d : Nat) (r : Res Val) (st' : State), Std st →
+    qqSubst F env st t d = (r, st') → r ≠ .oof →
+    Std st' ∧ ∀ F', F ≤ F' → qqSubst F' env st t d = (r, st')
+  | .vec xs p, F, st, d, r, st', hs, h, hr => by
+    rw [qqSubst.eq_1] at h
+    rcases he : qqElems F env st xs (d+1) with ⟨re, se⟩
+    rw [he] at h
+    cases re with
+    | oof => cases h; exact absurd rfl hr
+    | ok vs =>
+      cases h
+      obtain ⟨hs', hm⟩ := qqElems_mono ef env xs F st (d+1) _ _ hs he (by intro h; cases h)
+      exact ⟨hs', fun F' hF => by rw [qqSubst.eq_1, hm F' hF]⟩
+    | err e =>
+      cases h
+      obtain ⟨hs', hm⟩ := qqElems_mono ef env xs F st (d+1) _ _ hs he (by intro h; cases h)
+      exact ⟨hs', fun F' hF => by rw [qqSubst.eq_1, hm F' hF]⟩
+  | .list xs p, F, st, d, r, st', hs, h, hr => by
+    rw [qqSubst.eq_2] at h
+    cases hu : unquoteArg? (.list xs p) with
+    | some e =>
+      rw [hu] at h
+      simp only at h
+      exact ⟨ef.std' hs h hr, fun F' hF => by rw [qqSubst.eq_2, hu]; exact ef.mono0 hs h hr hF⟩
+    | none =>
+      rw [hu] at h
+      simp only at h
+      rcases he : qqElems F env st xs d with ⟨re, se⟩
+      rw [he] at h
+      cases re with
+      | oof => cases h; exact absurd rfl hr
+      | ok vs =>
+        cases h
+        obtain ⟨hs', hm⟩ := qqElems_mono ef env xs F st d _ _ hs he (by intro h; cases h)
+        exact ⟨hs', fun F' hF => by rw [qqSubst.eq_2, hu]; simp only [hm F' hF]⟩
+      | err e =>
+        cases h
+        obtain ⟨hs', hm⟩ := qqElems_mono ef env xs F st d _ _ hs he (by intro h; cases h)
+        exact ⟨hs', fun F' hF => by rw [qqSubst.eq_2, hu]; simp only [hm F' hF]⟩
+  | .nil, F, st, d, r, st', hs, h, hr => by cases h; exact ⟨hs, fun _ _ => rfl⟩
+  | .bool _, F, st, d, r, st', hs, h, hr => by cases h; exact ⟨hs, fun _ _ => rfl⟩
+  | .int _, F, st, d, r, st', hs, h, hr => by cases h; exact ⟨hs, fun _ _ => rfl⟩
+  | .str _, F, st, d, r, st', hs, h, hr => by cases h; exact ⟨hs, fun _ _ => rfl⟩
+  | .sym _ _, F, st, d, r, st', hs, h, hr => by cases h; exact ⟨hs, fun _ _ => rfl⟩
+  | .map _, F, st, d, r, st', hs, h, hr => by cases h; exact ⟨hs, fun _ _ => rfl⟩
+  | .set _, F, st, d, r, st', hs, h, hr => by cases h; exact ⟨hs, fun _ _ => rfl⟩
+  | .fn .., F, st, d, r, st', hs, h, hr => by cases h; exact ⟨hs, fun _ _ => rfl⟩
+  | .builtin _, F, st, d, r, st', hs, h, hr => by cases h; exact ⟨hs, fun _ _ => rfl⟩
+  | .atom _, F, st, d, r, st', hs, h, hr => by cases h; exact ⟨hs, fun _ _ => rfl⟩
+  | .future _, F, st, d, r, st', hs, h, hr => by cases h; exact ⟨hs, fun _ _ => rfl⟩
+  | .goerr _, F, st, d, r, st', hs, h, hr => by cases h; exact ⟨hs, fun _ _ => rfl⟩
+  | .opaque _, F, st, d, r, st', hs, h, hr => by cases h; exact ⟨hs, fun _ _ => rfl⟩
+theorem qqElems_mono (ef : EvalFacts) (env : Nat) :
+    ∀ (xs : List Val) (F : Nat) (st : State) (d : Nat) (r : Res (List Val)) (st' : State), Std st →
+    qqElems F env st xs d = (r, st') → r ≠ .oof →
+    Std st' ∧ ∀ F', F ≤ F' → qqElems F' env st xs d = (r, st')
+  | [], F, st, d, r, st', hs, h, hr => by
+    rw [qqElems.eq_1] at h; cases h
+    exact ⟨hs, fun F' _ => by rw [qqElems.eq_1]⟩
+  | elt :: rest, F, st, d, r, st', hs, h, hr => by
+    rw [qqElems.eq_2] at h
+    cases hsp : spliceArg? elt with
+    | some x =>
+      rw [hsp] at h
+      simp only at h
+      rcases h1 : eval F st env x (d+1) with ⟨r1, s1⟩
+      rw [h1] at h
+      cases r1 with
+      | oof => cases h; exact absurd rfl hr
+      | err e =>
+        cases h
+        exact ⟨ef.std' hs h1 (by intro h; cases h), fun F' hF => by
+          rw [qqElems.eq_2, hsp]; simp only [ef.mono0 hs h1 (by intro h; cases h) hF]⟩
+      | ok v =>
+        simp only at h
+        have hs1 := ef.std' hs h1 (by intro h; cases h)
+        rcases h2 : qqElems F env s1 rest (d+1) with ⟨r2, s2⟩
+        rw [h2] at h
+        cases r2 with
+        | oof => cases h; exact absurd rfl hr
+        | err e =>
+          cases h
+          obtain ⟨hs2, hm2⟩ := qqElems_mono ef env rest F s1 (d+1) _ _ hs1 h2 (by intro h; cases h)
+          exact ⟨hs2, fun F' hF => by
+            rw [qqElems.eq_2, hsp]
+            simp only [ef.mono0 hs h1 (by intro h; cases h) hF, hm2 F' hF]⟩
+        | ok vs =>
+          simp only at h
+          obtain ⟨hs2, hm2⟩ := qqElems_mono ef env rest F s1 (d+1) _ _ hs1 h2 (by intro h; cases h)
+          refine ⟨?_, fun F' hF => ?_⟩
+          · cases hv : seqOf? v <;> (rw [hv] at h; cases h; exact hs2)
+          · rw [qqElems.eq_2, hsp]
+            simp only [ef.mono0 hs h1 (by intro h; cases h) hF, hm2 F' hF]
+            exact h
+    | none =>
+      rw [hsp] at h
+      simp only at h
+      rcases h1 : qqSubst F env st elt (d+1) with ⟨r1, s1⟩
+      rw [h1] at h
+      cases r1 with
+      | oof => cases h; exact absurd rfl hr
+      | err e =>
+        cases h
+        obtain ⟨hs1, hm1⟩ := qqSubst_mono ef env elt F st (d+1) _ _ hs h1 (by intro h; cases h)
+        exact ⟨hs1, fun F' hF => by rw [qqElems.eq_2, hsp]; simp only [hm1 F' hF]⟩
+      | ok v =>
+        simp only at h
+        obtain ⟨hs1, hm1⟩ := qqSubst_mono ef env elt F st (d+1) _ _ hs h1 (by intro h; cases h)
+        rcases h2 : qqElems F env s1 rest (d+1) with ⟨r2, s2⟩
+        rw [h2] at h
+        cases r2 with
+        | oof => cases h; exact absurd rfl hr
+        | err e =>
+          cases h
+          obtain ⟨hs2, hm2⟩ := qqElems_mono ef env rest F s1 (d+1) _ _ hs1 h2 (by intro h; cases h)
+          exact ⟨hs2, fun F' hF => by rw [qqElems.eq_2, hsp]; simp only [hm1 F' hF, hm2 F' hF]⟩
+        | ok vs =>
+          cases h
+          obtain ⟨hs2, hm2⟩ := qqElems_mono ef env rest F s1 (d+1) _ _ hs1 h2 (by intro h; cases h)
+          exact ⟨hs2, fun F' hF => by rw [qqElems.eq_2, hsp]; simp only [hm1 F' hF, hm2 F' hF]⟩
+end
+
+/-! ### the converse: what the generated code computes, the specification computes -/
+
+theorem evalLoop_lift (ef : EvalFacts) {F : Nat} {s0 s : State} {env d : Nat} {code : Val} {r : Res Val}
+    (hs : Std s0) (h : evalLoop F s0 env code d = (r, s)) (hr : r ≠ .oof) (k : Nat) :
+    evalLoop (F+k) s0 env code d = (r, s) := by
+  rw [← eval_std hs.1] at h ⊢
+  exact ef.mono0 hs h hr (by omega)
+
+theorem unshift (ef : EvalFacts) {F j : Nat} {st s : State} {env d : Nat} {e : Val} {r : Res Val}
+    (hs : Std st) (h : eval F (addTicks j st) env e d = (r, s)) :
+    ∃ s0, eval F st env e d = (r, s0) ∧ s = addTicks j s0 := by
+  rw [ef.shift j hs] at h
+  cases h
+  exact ⟨_, rfl, rfl⟩
+
+theorem listRes_ok {rs : Res (List Val)} {a : Val} (h : listRes rs = .ok a) :
+    ∃ vs, rs = .ok vs ∧ a = .list vs none := by
+  cases rs <;> simp only [listRes] at h <;> first | (cases h; exact ⟨_, rfl, rfl⟩) | cases h
+
+theorem listRes_err {rs : Res (List Val)} {e : Err} (h : listRes rs = .err e) : rs = .err e := by
+  cases rs <;> simp only [listRes] at h <;> first | (cases h; rfl) | cases h
+
+theorem listRes_ne_oof {rs : Res (List Val)} (h : listRes rs ≠ .oof) : rs ≠ .oof := by
+  intro h'; subst h'; exact h rfl
+
+theorem qqSubst_list_none {F env : Nat} {st : State} {xs : List Val} {p : Option Pos} {d : Nat}
+    (hu : unquoteArg? (.list xs p) = none) :
+    qqSubst F env st (.list xs p) d =
+      (listRes (qqElems F env st xs d).1, (qqElems F env st xs d).2) := by
+  rw [qqSubst.eq_2, hu]
+  simp only
+  rcases qqElems F env st xs d with ⟨r, s⟩
+  cases r <;> rfl
+
+theorem qqSubst_vec_eq {F env : Nat} {st : State} {xs : List Val} {p : Option Pos} {d : Nat} :
+    qqSubst F env st (.vec xs p) d =
+      (match (qqElems F env st xs (d+1)).1 with
+        | .ok vs => .ok (.vec vs none) | .err e => .err e | .oof => .oof,
+       (qqElems F env st xs (d+1)).2) := by
+  rw [qqSubst.eq_1]
+  rcases qqElems F env st xs (d+1) with ⟨r, s⟩
+  cases r <;> rfl
+
+/-- the shape of the statement, for a literal piece of code -/
+theorem conv_literal {I : State → Prop} {st s : State} {j : Nat} {r : Res Val} {v : Val}
+    (hi : I st) (hs : Std st) (h : (Res.ok v, tick (addTicks j st)) = (r, s)) :
+    ∃ st' k, (Res.ok v, st) = (r, st') ∧ s = addTicks k st' ∧ I st' ∧ Std st' := by
+  cases h
+  exact ⟨st, j + 1, rfl, rfl, hi, hs⟩
+
+theorem qq_conv_literal (ef : EvalFacts) {env : Nat} {I : State → Prop} {v : Val} {F' : Nat}
+    {st s : State} {d j : Nat} {r : Res Val}
+    (h1 : ∀ xs p, v ≠ .list xs p) (h2 : ∀ xs p, v ≠ .vec xs p) (h3 : ∀ m, v ≠ .map m)
+    (h4 : ∀ s p, v ≠ .sym s p) (hi : I st) (hs : Std st)
+    (h : evalLoop F' (addTicks j st) env (quasiquote v) d = (r, s)) (hr : r ≠ .oof) :
+    ∃ F st' k, qqSubst F env st v d = (r, st') ∧ s = addTicks k st' ∧ I st' ∧ Std st' := by
+  have hq : quasiquote v = v := by
+    cases v <;> first | rfl | exact absurd rfl (h1 _ _) | exact absurd rfl (h2 _ _) | exact absurd rfl (h3 _) | exact absurd rfl (h4 _ _)
+  rw [hq] at h
+  have h5 := evalLoop_lift ef (Std.addTicks hs j) h hr 2
+  rw [literal_form (Std.addTicks hs j) h1 h2 h3 h4] at h5
+  obtain ⟨st', k, e1, e2, e3, e4⟩ := conv_literal hi hs h5
+  refine ⟨0, st', k, ?_, e2, e3, e4⟩
+  rw [qqSubst.eq_3 _ _ _ _ _ (fun xs p h => h2 xs p h) (fun xs p h => h1 xs p h)]
+  exact e1
+
+mutual
+theorem qq_conv (ef : EvalFacts) (env : Nat) (I : State → Prop) (hI : ∀ st, I st → CoreBound st env) :
+    ∀ (t : Val) (F' : Nat) (st : State) (d j : Nat) (r : Res Val) (s : State),
+    (∀ e ∈ qqExprs t, Preserves I env e) → I st → Std st →
+    evalLoop F' (addTicks j st) env (quasiquote t) d = (r, s) → r ≠ .oof →
+    ∃ F st' k, qqSubst F env st t d = (r, st') ∧ s = addTicks k st' ∧ I st' ∧ Std st'
+  | .vec xs p, F', st, d, j, r, s, hp, hi, hs, h, hr => by
+    have hp' : ∀ e ∈ qqExprsL xs, Preserves I env e := by
+      intro e he; exact hp e (by rw [qqExprs.eq_1]; exact he)
+    rw [quasiquote.eq_1] at h
+    have h5 := evalLoop_lift ef (Std.addTicks hs j) h hr 5
+    rw [vec_form (Std.addTicks hs j) ((CoreBound_addTicks j).2 (hI _ hi)), addTicks_addTicks,
+      eval_std (Std.addTicks hs _).1] at h5
+    rcases he : evalLoop (F'+1) (addTicks (j+2) st) env (qqLoop xs) (d+1) with ⟨r1, s1⟩
+    rw [he] at h5
+    cases r1 with
+    | oof => cases h5; exact absurd rfl hr
+    | err e =>
+      cases h5
+      obtain ⟨F, rs, st', k, hq, hl, rfl, hi', hs'⟩ :=
+        qq_conv_elems ef env I hI xs (F'+1) st (d+1) (j+2) _ _ hp' hi hs he (by intro h; cases h)
+      have := listRes_err hl.symm; subst this
+      exact ⟨F, st', k, by rw [qqSubst_vec_eq, hq], rfl, hi', hs'⟩
+    | ok a =>
+      simp only at h5
+      obtain ⟨F, rs, st', k, hq, hl, rfl, hi', hs'⟩ :=
+        qq_conv_elems ef env I hI xs (F'+1) st (d+1) (j+2) _ _ hp' hi hs he (by intro h; cases h)
+      obtain ⟨vs, rfl, rfl⟩ := listRes_ok hl.symm
+      have hv : pureCall (addTicks k st') "vec" [.list vs none] =
+          (.ok (.vec vs none), addTicks k st') := by
+        unfold pureCall; rw [call_vec_list]
+      rw [hv] at h5; cases h5
+      exact ⟨F, st', k, by rw [qqSubst_vec_eq, hq], rfl, hi', hs'⟩
+  | .list xs p, F', st, d, j, r, s, hp, hi, hs, h, hr => by
+    rw [quasiquote_list] at h
+    rw [qqExprs.eq_2] at hp
+    cases hu : unquoteArg? (.list xs p) with
+    | some e =>
+      rw [hu] at h hp
+      simp only at h
+      rw [← eval_std (Std.addTicks hs j).1] at h
+      obtain ⟨s0, hx, rfl⟩ := unshift ef hs h
+      exact ⟨F'+1, s0, j, by rw [qqSubst.eq_2, hu]; exact hx, rfl,
+        hp e (List.mem_singleton.2 rfl) _ _ _ _ _ hi hx, ef.std' hs hx hr⟩
+    | none =>
+      rw [hu] at h hp
+      simp only at h hp
+      obtain ⟨F, rs, st', k, hq, hl, rfl, hi', hs'⟩ :=
+        qq_conv_elems ef env I hI xs F' st d j _ _ hp hi hs h hr
+      exact ⟨F, st', k, by rw [qqSubst_list_none hu, hq, hl], rfl, hi', hs'⟩
+  | .map m, F', st, d, j, r, s, hp, hi, hs, h, hr => by
+    rw [quasiquote.eq_2] at h
+    have h2 := evalLoop_lift ef (Std.addTicks hs j) h hr 2
+    rw [quote_form (Std.addTicks hs j) ((NotMacro_addTicks j).2 (hI _ hi).2.2.2)] at h2
+    obtain ⟨st', k, h1, h3, h4, h5⟩ := conv_literal hi hs h2
+    exact ⟨0, st', k, h1, h3, h4, h5⟩
+  | .sym sy p, F', st, d, j, r, s, hp, hi, hs, h, hr => by
+    rw [quasiquote.eq_3] at h
+    have h2 := evalLoop_lift ef (Std.addTicks hs j) h hr 2
+    rw [quote_form (Std.addTicks hs j) ((NotMacro_addTicks j).2 (hI _ hi).2.2.2)] at h2
+    obtain ⟨st', k, h1, h3, h4, h5⟩ := conv_literal hi hs h2
+    exact ⟨0, st', k, h1, h3, h4, h5⟩
+  | .nil, F', st, d, j, r, s, hp, hi, hs, h, hr =>
+    qq_conv_literal ef (by intro _ _ h; cases h) (by intro _ _ h; cases h) (by intro _ h; cases h) (by intro _ _ h; cases h) hi hs h hr
+  | .bool _, F', st, d, j, r, s, hp, hi, hs, h, hr =>
+    qq_conv_literal ef (by intro _ _ h; cases h) (by intro _ _ h; cases h) (by intro _ h; cases h) (by intro _ _ h; cases h) hi hs h hr
+  | .int _, F', st, d, j, r, s, hp, hi, hs, h, hr =>
+    qq_conv_literal ef (by intro _ _ h; cases h) (by intro _ _ h; cases h) (by intro _ h; cases h) (by intro _ _ h; cases h) hi hs h hr
+  | .str _, F', st, d, j, r, s, hp, hi, hs, h, hr =>
+    qq_conv_literal ef (by intro _ _ h; cases h) (by intro _ _ h; cases h) (by intro _ h; cases h) (by intro _ _ h; cases h) hi hs h hr
+  | .set _, F', st, d, j, r, s, hp, hi, hs, h, hr =>
+    qq_conv_literal ef (by intro _ _ h; cases h) (by intro _ _ h; cases h) (by intro _ h; cases h) (by intro _ _ h; cases h) hi hs h hr
+  | .fn .., F', st, d, j, r, s, hp, hi, hs, h, hr =>
+    qq_conv_literal ef (by intro _ _ h; cases h) (by intro _ _ h; cases h) (by intro _ h; cases h) (by intro _ _ h; cases h) hi hs h hr
+  | .builtin _, F', st, d, j, r, s, hp, hi, hs, h, hr =>
+    qq_conv_literal ef (by intro _ _ h; cases h) (by intro _ _ h; cases h) (by intro _ h; cases h) (by intro _ _ h; cases h) hi hs h hr
+  | .atom _, F', st, d, j, r, s, hp, hi, hs, h, hr =>
+    qq_conv_literal ef (by intro _ _ h; cases h) (by intro _ _ h; cases h) (by intro _ h; cases h) (by intro _ _ h; cases h) hi hs h hr
+  | .future _, F', st, d, j, r, s, hp, hi, hs, h, hr =>
+    qq_conv_literal ef (by intro _ _ h; cases h) (by intro _ _ h; cases h) (by intro _ h; cases h) (by intro _ _ h; cases h) hi hs h hr
+  | .goerr _, F', st, d, j, r, s, hp, hi, hs, h, hr =>
+    qq_conv_literal ef (by intro _ _ h; cases h) (by intro _ _ h; cases h) (by intro _ h; cases h) (by intro _ _ h; cases h) hi hs h hr
+  | .opaque _, F', st, d, j, r, s, hp, hi, hs, h, hr =>
+    qq_conv_literal ef (by intro _ _ h; cases h) (by intro _ _ h; cases h) (by intro _ h; cases h) (by intro _ _ h; cases h) hi hs h hr
+theorem qq_conv_elems (ef : EvalFacts) (env : Nat) (I : State → Prop) (hI : ∀ st, I st → CoreBound st env) :
+    ∀ (xs : List Val) (F' : Nat) (st : State) (d j : Nat) (r : Res Val) (s : State),
+    (∀ e ∈ qqExprsL xs, Preserves I env e) → I st → Std st →
+    evalLoop F' (addTicks j st) env (qqLoop xs) d = (r, s) → r ≠ .oof →
+    ∃ F rs st' k, qqElems F env st xs d = (rs, st') ∧ r = listRes rs ∧ s = addTicks k st' ∧ I st' ∧ Std st'
+  | [], F', st, d, j, r, s, hp, hi, hs, h, hr => by
+    rw [qqLoop.eq_1] at h
+    have h2 := evalLoop_lift ef (Std.addTicks hs j) h hr 2
+    rw [empty_form (Std.addTicks hs j)] at h2
+    cases h2
+    exact ⟨0, .ok [], st, j + 1, by rw [qqElems.eq_1], rfl, rfl, hi, hs⟩
+  | elt :: rest, F', st, d, j, r, s, hp, hi, hs, h, hr => by
+    rw [qqLoop_cons] at h
+    rw [qqExprsL.eq_2] at hp
+    have hpr : ∀ e ∈ qqExprsL rest, Preserves I env e := fun e he => hp e (List.mem_append_right _ he)
+    have hsj := Std.addTicks hs j
+    have hbj := (CoreBound_addTicks j).2 (hI _ hi)
+    cases hsp : spliceArg? elt with
+    | some x =>
+      rw [hsp] at h hp
+      simp only at h hp
+      have hpx : Preserves I env x := hp x (List.mem_append_left _ (List.mem_singleton.2 rfl))
+      have h5 := evalLoop_lift ef hsj h hr 5
+      rw [concat_form hsj hbj, addTicks_addTicks] at h5
+      rcases h1 : eval (F'+2) (addTicks (j+2) st) env x (d+1) with ⟨r1, s1⟩
+      rw [h1] at h5
+      obtain ⟨s0, hx, rfl⟩ := unshift ef hs h1
+      cases r1 with
+      | oof => cases h5; exact absurd rfl hr
+      | err e =>
+        cases h5
+        exact ⟨F'+2, .err e, s0, j+2, by rw [qqElems.eq_2, hsp]; simp only [hx], rfl, rfl,
+          hpx _ _ _ _ _ hi hx, ef.std' hs hx (by intro h; cases h)⟩
+      | ok v =>
+        simp only at h5
+        have hi0 := hpx _ _ _ _ _ hi hx
+        have hs0 := ef.std' hs hx (by intro h; cases h)
+        rw [eval_std (Std.addTicks hs0 _).1] at h5
+        rcases h2 : evalLoop F' (addTicks (j+2) s0) env (qqLoop rest) (d+1) with ⟨r2, s2⟩
+        rw [h2] at h5
+        cases r2 with
+        | oof => cases h5; exact absurd rfl hr
+        | err e =>
+          cases h5
+          obtain ⟨F₂, rs, st2, k2, hq2, hl2, rfl, hi2, hs2⟩ :=
+            qq_conv_elems ef env I hI rest F' s0 (d+1) (j+2) _ _ hpr hi0 hs0 h2 (by intro h; cases h)
+          have := listRes_err hl2.symm; subst this
+          refine ⟨max (F'+2) F₂, .err e, st2, k2, ?_, rfl, rfl, hi2, hs2⟩
+          rw [qqElems.eq_2, hsp]
+          simp only [ef.mono0 hs hx (by intro h; cases h) (Nat.le_max_left _ _),
+            (qqElems_mono ef env rest F₂ s0 (d+1) _ _ hs0 hq2 (by intro h; cases h)).2 _
+              (Nat.le_max_right _ _)]
+        | ok a =>
+          simp only at h5
+          obtain ⟨F₂, rs, st2, k2, hq2, hl2, rfl, hi2, hs2⟩ :=
+            qq_conv_elems ef env I hI rest F' s0 (d+1) (j+2) _ _ hpr hi0 hs0 h2 (by intro h; cases h)
+          obtain ⟨vs, rfl, rfl⟩ := listRes_ok hl2.symm
+          have hspec : qqElems (max (F'+2) F₂) env st (elt :: rest) d =
+              (match seqOf? v with
+               | some ys => (.ok (ys ++ vs), st2)
+               | none => (.err spliceErr, st2)) := by
+            rw [qqElems.eq_2, hsp]
+            simp only [ef.mono0 hs hx (by intro h; cases h) (Nat.le_max_left _ _),
+              (qqElems_mono ef env rest F₂ s0 (d+1) _ _ hs0 hq2 (by intro h; cases h)).2 _
+                (Nat.le_max_right _ _)]
+            cases seqOf? v <;> rfl
+          cases hv : seqOf? v with
+          | none =>
+            rw [hv] at h5 hspec
+            simp only at h5
+            cases h5
+            exact ⟨_, _, st2, k2, hspec, rfl, rfl, hi2, hs2⟩
+          | some ys =>
+            rw [hv] at h5 hspec
+            simp only [seqOf?] at h5
+            cases h5
+            exact ⟨_, _, st2, k2, hspec, rfl, rfl, hi2, hs2⟩
+    | none =>
+      rw [hsp] at h hp
+      simp only at h hp
+      have hpx : ∀ e ∈ qqExprs elt, Preserves I env e := fun e he => hp e (List.mem_append_left _ he)
+      have h5 := evalLoop_lift ef hsj h hr 5
+      rw [cons_form hsj hbj, addTicks_addTicks, eval_std (Std.addTicks hs _).1] at h5
+      rcases h1 : evalLoop (F'+1) (addTicks (j+2) st) env (quasiquote elt) (d+1) with ⟨r1, s1⟩
+      rw [h1] at h5
+      cases r1 with
+      | oof => cases h5; exact absurd rfl hr
+      | err e =>
+        cases h5
+        obtain ⟨F₁, st1, k1, hq1, rfl, hi1, hs1⟩ :=
+          qq_conv ef env I hI elt (F'+1) st (d+1) (j+2) _ _ hpx hi hs h1 (by intro h; cases h)
+        exact ⟨F₁, .err e, st1, k1, by rw [qqElems.eq_2, hsp]; simp only [hq1], rfl, rfl, hi1, hs1⟩
+      | ok v =>
+        simp only at h5
+        obtain ⟨F₁, st1, k1, hq1, rfl, hi1, hs1⟩ :=
+          qq_conv ef env I hI elt (F'+1) st (d+1) (j+2) _ _ hpx hi hs h1 (by intro h; cases h)
+        rw [eval_std (Std.addTicks hs1 _).1] at h5
+        rcases h2 : evalLoop F' (addTicks k1 st1) env (qqLoop rest) (d+1) with ⟨r2, s2⟩
+        rw [h2] at h5
+        cases r2 with
+        | oof => cases h5; exact absurd rfl hr
+        | err e =>
+          cases h5
+          obtain ⟨F₂, rs, st2, k2, hq2, hl2, rfl, hi2, hs2⟩ :=
+            qq_conv_elems ef env I hI rest F' st1 (d+1) k1 _ _ hpr hi1 hs1 h2 (by intro h; cases h)
+          have := listRes_err hl2.symm; subst this
+          refine ⟨max F₁ F₂, .err e, st2, k2, ?_, rfl, rfl, hi2, hs2⟩
+          rw [qqElems.eq_2, hsp]
+          simp only [(qqSubst_mono ef env elt F₁ st (d+1) _ _ hs hq1 (by intro h; cases h)).2 _
+              (Nat.le_max_left _ _),
+            (qqElems_mono ef env rest F₂ st1 (d+1) _ _ hs1 hq2 (by intro h; cases h)).2 _
+              (Nat.le_max_right _ _)]
+        | ok a =>
+          simp only at h5
+          obtain ⟨F₂, rs, st2, k2, hq2, hl2, rfl, hi2, hs2⟩ :=
+            qq_conv_elems ef env I hI rest F' st1 (d+1) k1 _ _ hpr hi1 hs1 h2 (by intro h; cases h)
+          obtain ⟨vs, rfl, rfl⟩ := listRes_ok hl2.symm
+          simp only [seqOf?] at h5
+          cases h5
+          refine ⟨max F₁ F₂, .ok (v :: vs), st2, k2, ?_, rfl, rfl, hi2, hs2⟩
+          rw [qqElems.eq_2, hsp]
+          simp only [(qqSubst_mono ef env elt F₁ st (d+1) _ _ hs hq1 (by intro h; cases h)).2 _
+              (Nat.le_max_left _ _),
+            (qqElems_mono ef env rest F₂ st1 (d+1) _ _ hs1 hq2 (by intro h; cases h)).2 _
+              (Nat.le_max_right _ _)]
+end
+
 end LispModel.Proofs.QQ
